@@ -152,6 +152,7 @@ def name_pool(thorough, seed):
         names += [c, "a" + c + "b", c + "a", "a" + c]
     names += ["a b c", "a b", "a+b", "a-b", "a_b", "a  b", "x:y", "my|special$column!", "d$in^df", "wacky name!"]
     names += ["é", "日本語", "😀", "a b", "ß", "x́", "​", "naïve café", "Ω≈ç√", "ＡＢ"]
+    names += ["½", "x²", "aǌ", "ſ"]
     names += ["lambda", "for", "None", "class", "1", "1a", "2.5", "0", "00", "_", "__a__", "a.b", "a.b.c", ".a", ""]
     names += ['"', "'", '"a"', "'a'", "a\"b'c", "(a)", "[0]", "{a}", "f(x)", "a}", "{", "}}", "((", "\\", "\\\\", "a\\b", "\\n", "%in%", "~", "a ~ b"]
     if thorough:
@@ -180,7 +181,7 @@ def name_class(n):
         return "python-keyword"
     if any(re.match(r"\w", c) and not ("_" + c).isidentifier() for c in n):
         return "word-character-not-allowed-in-identifiers"
-    if any(re.match(r"\w", c) and unicodedata.normalize("NFKC", c) != c for c in n):
+    if any((re.match(r"\w", c) or ("a" + c).isidentifier()) and unicodedata.normalize("NFKC", c) != c for c in n):
         return "character-changed-by-unicode-normalisation"
     if "\\" in n:
         return "name-with-backslash"
